@@ -52,6 +52,9 @@ type Reporter struct {
 	Distinct map[string]struct{}
 	Labels   map[string]int64
 	printed  map[string]bool
+	// OnlyKinds, when set, restricts what counts as a violation (C04: only panics and hangs are its
+	// business; what a call returns is judged by the other properties)
+	OnlyKinds map[string]bool
 }
 
 // NewReporter loads the known findings.
@@ -136,6 +139,10 @@ func (r *Reporter) Sample(s interface{}) {
 func (r *Reporter) Report(v *Violation) {
 	r.mu.Lock()
 	defer r.mu.Unlock()
+	if r.OnlyKinds != nil && !r.OnlyKinds[v.Kind] {
+		r.Counters["ignored:"+v.Kind]++
+		return
+	}
 	for _, f := range r.findings {
 		if f.matches(v) {
 			r.NKnown[f.ID]++
@@ -147,6 +154,9 @@ func (r *Reporter) Report(v *Violation) {
 		}
 	}
 	r.NViol++
+	if v.Case != nil {
+		v.Case["package"] = Dialect
+	}
 	r.Counters["viol:"+v.Kind+":"+v.Sig["lab"]+":"+v.Sig["lastop"]]++
 	if r.files >= r.MaxFiles {
 		return
